@@ -22,6 +22,7 @@ func init() {
 			ruleCodecSiblings(c, r, "")
 			ruleBudgetFresh(c, r, "")
 			ruleLookahead(c, r, "")
+			ruleOpMargin(c, r, "")
 			ruleFlushFailStop(c, r, "")
 			ruleLoopAdvanceExact(c, r, "")
 			ruleMatcherGuard(c, r, "", false)
